@@ -660,9 +660,17 @@ class _ARM64_ELF(ABI):
                 #       would allow us to repurpose any register that's
                 #       clobbered for this as long as it isn't read.
                 flags_reg = register_use.scratch_registers[0]
-            else:
+            elif register_use.available_registers:
                 flags_reg = register_use.available_registers.pop(0)
                 register_use.clobbered_registers.append(flags_reg)
+            elif register_use.clobbered_registers:
+                # Every allocatable register is already clobbered and will be
+                # saved before the flags are read, so any of them will do.
+                flags_reg = register_use.clobbered_registers[0]
+            else:
+                raise ValueError(
+                    "unable to allocate a register to save the flags"
+                )
 
         # ARM64 requires sp be 16-byte aligned any time it is used as a base
         # register in an address operand. What we're going to do is push two
